@@ -56,25 +56,22 @@ func Int(v any, defaults ...int64) (i int64) {
 			i = int64(tv)
 		}
 	case float32:
-		i = int64(tv)
-		if float32(i) != tv {
-			if 1 < len(defaults) {
-				i = defaults[1]
-			}
-		}
+		i = floatInt(float64(tv), defaults)
 	case float64:
-		i = int64(tv)
-		if float64(i) != tv {
-			if 1 < len(defaults) {
-				i = defaults[1]
-			}
-		}
+		i = floatInt(tv, defaults)
 	case string:
 		var err error
 		if 1 < len(defaults) {
 			i = defaults[1]
 		} else if i, err = strconv.ParseInt(tv, 10, 64); err != nil {
 			if f, err2 := strconv.ParseFloat(tv, 64); err2 == nil {
+				if !inIntRange(f) {
+					i = 0
+					if 0 < len(defaults) {
+						i = defaults[0]
+					}
+					break
+				}
 				i = int64(f)
 				if float64(i) != f {
 					if 0 < len(defaults) {
@@ -96,12 +93,7 @@ func Int(v any, defaults ...int64) (i int64) {
 	case gen.Int:
 		i = int64(tv)
 	case gen.Float:
-		i = int64(tv)
-		if float64(i) != float64(tv) {
-			if 1 < len(defaults) {
-				i = defaults[1]
-			}
-		}
+		i = floatInt(float64(tv), defaults)
 	case gen.String:
 		i = Int(string(tv), defaults...)
 	case gen.Time:
@@ -117,6 +109,33 @@ func Int(v any, defaults ...int64) (i int64) {
 		if 0 < len(defaults) {
 			i = defaults[0]
 		}
+	}
+	return
+}
+
+// inIntRange returns true if the float, truncated, is an int64. NaN and the
+// infinities are not.
+func inIntRange(f float64) bool {
+	return -9223372036854775808.0 <= f && f < 9223372036854775808.0
+}
+
+// floatInt converts a float to an int64 by truncation. If the float is not
+// in the int64 range conversion is not possible and the first default or 0
+// is returned. A float with a fraction gives the second default if there is
+// one.
+func floatInt(f float64, defaults []int64) (i int64) {
+	if !inIntRange(f) {
+		if 1 < len(defaults) {
+			return defaults[1]
+		}
+		if 0 < len(defaults) {
+			return defaults[0]
+		}
+		return 0
+	}
+	i = int64(f)
+	if float64(i) != f && 1 < len(defaults) {
+		i = defaults[1]
 	}
 	return
 }
